@@ -35,3 +35,18 @@ pub fn opt_u64_max(a: Option<u64>, b: Option<u64>) -> (r: Option<u64>)
         b is None ==> r == a,
         a is Some && b is Some ==> r == Some(if a->0 >= b->0 { a->0 } else { b->0 }),
 { std::cmp::max(a, b) }
+
+// N20: decimal text of block numbers in the configuration store
+pub uninterp spec fn parse_u64_or0(s: Seq<char>) -> u64;
+
+// `x.parse::<u64>().unwrap_or(0)`
+#[verifier::external_body]
+pub fn string_parse_u64_or0(x: &String) -> (r: u64)
+    ensures r == parse_u64_or0(x@),
+{ x.parse::<u64>().unwrap_or(0) }
+
+// `n.to_string()` for u64: parsing the decimal text gives the number back (assumed: core::fmt / core::str)
+#[verifier::external_body]
+pub fn u64_to_string(n: u64) -> (r: String)
+    ensures parse_u64_or0(r@) == n,
+{ n.to_string() }
